@@ -20,10 +20,15 @@ class Case:
     origin: str = ""
     target: tuple = None
     tree: tuple = None
+    # True: the Problem is constructed directly (tensora.problem.Problem) with the tensors in the
+    # order of `formats`, which then is the kernel's parameter order - not necessarily target first.
+    # False: through make_problem, which orders them by appearance in the assignment.
+    direct_problem: bool = False
 
     def key(self):
         return (self.assignment, tuple(sorted(self.formats.items())), tuple(sorted(self.sizes.items())),
-                tuple((n, tuple(sorted(v.items()))) for n, v in sorted(self.inputs.items())), self.capacity)
+                tuple((n, tuple(sorted(v.items()))) for n, v in sorted(self.inputs.items())), self.capacity,
+                tuple(self.formats) if self.direct_problem else None)
 
     def describe(self):
         return {
@@ -33,6 +38,7 @@ class Case:
             "inputs": {n: {str(list(c)): v for c, v in sorted(m.items())} for n, m in self.inputs.items()},
             "initial_capacity": self.capacity,
             "origin": self.origin,
+            **({"parameter_order": list(self.formats)} if self.direct_problem else {}),
         }
 
 
@@ -41,8 +47,12 @@ def case_from_description(d) -> Case:
 
     target, tree = gen.parse(d["assignment"])
     inputs = {n: {tuple(pyast.literal_eval(c)): v for c, v in m.items()} for n, m in d["inputs"].items()}
-    return Case(d["assignment"], dict(d["formats"]), dict(d["index_sizes"]), inputs, d.get("initial_capacity"),
-                d.get("origin", "replay"), target, tree)
+    formats = dict(d["formats"])
+    direct = "parameter_order" in d
+    if direct:
+        formats = {n: formats[n] for n in d["parameter_order"]}
+    return Case(d["assignment"], formats, dict(d["index_sizes"]), inputs, d.get("initial_capacity"),
+                d.get("origin", "replay"), target, tree, direct)
 
 
 # --------------------------------------------------------------------------- tensora front door
@@ -90,6 +100,13 @@ def make_problem(case: Case):
         if not isinstance(r, Success):
             raise InternalError(ValueError(f"bad format {f!r}"))
         formats[n] = r.unwrap()
+    if case.direct_problem:
+        from tensora.problem import Problem
+
+        try:
+            return Problem(a.unwrap(), formats)
+        except Exception as exc:  # noqa: BLE001
+            raise InternalError(exc) from exc
     p = mk(a.unwrap(), formats)
     if not isinstance(p, Success):
         raise InternalError(p.failure())
@@ -266,6 +283,9 @@ def compare_values(decoded: dict, ref: dict):
 # --------------------------------------------------------------------------- case streams
 
 
+DIRECT_PROBLEM_P = 0.12
+
+
 def build_case(rng, target, tree, formats=None, values=gen.DYADIC, capacity="random", origin="", sizes_pool=None):
     orders = gen.tensor_orders(target, tree)
     if formats is None:
@@ -278,7 +298,14 @@ def build_case(rng, target, tree, formats=None, values=gen.DYADIC, capacity="ran
     dims = gen.tensor_dims(target, tree, sizes)
     inputs = {n: gen.random_entries(rng, dims[n], values) for n in gen.tensors_of(tree)}
     cap = rng.choice(gen.CAPACITIES) if capacity == "random" else capacity
-    return Case(gen.show_assignment(target, tree), ordered, sizes, inputs, cap, origin, target, tree)
+    direct = False
+    if len(ordered) > 1 and rng.random() < DIRECT_PROBLEM_P:
+        # a Problem built directly: parameters in another order than make_problem would choose
+        names = list(ordered)
+        rng.shuffle(names)
+        ordered = {n: ordered[n] for n in names}
+        direct = True
+    return Case(gen.show_assignment(target, tree), ordered, sizes, inputs, cap, origin, target, tree, direct)
 
 
 def curated_cases(rng, n_formats, n_inputs, include_broadcast=True, values=gen.DYADIC):
